@@ -37,8 +37,8 @@ Definition due_b (scale : Z -> ratio -> Z) (i : inputs) (rnd now : Z) : bool :=
 
 Record tcert := TCert { tc_cert : cert; tc_in : inputs }.
 Definition at_time (scale : Z -> ratio -> Z) (now rnd : Z) (t : tcert) : cert :=
-  Cert (cid (tc_cert t)) (chead (tc_cert t)) (crest (tc_cert t))
-       (due_b scale (tc_in t) rnd now) (cman (tc_cert t)).
+  {| cid := cid (tc_cert t); chead := chead (tc_cert t); crest := crest (tc_cert t);
+     cdue := due_b scale (tc_in t) rnd now; cman := cman (tc_cert t) |}.
 
 Lemma due_b_true scale i rnd now : due_b scale i rnd now = true <-> decide scale i rnd now = Renew.
 Proof. unfold due_b. destruct (decide scale i rnd now); cbn; split; congruence. Qed.
@@ -109,7 +109,7 @@ Section Closure.
   (** [N0]: identities from [N0] on are the ones handed out from now on *)
   Variable N0 : nat.
   Hypothesis P_issued : forall s n, N0 <= next s -> P (new_cert idue s n).
-  Hypothesis P_ext : forall s n rest, N0 <= next s -> P (Cert (next s) n rest false true).
+  Hypothesis P_ext : forall s n rest, N0 <= next s -> P {| cid := next s; chead := n; crest := rest; cdue := false; cman := true |}.
 
   Lemma AllP_job_step s n k : N0 <= next s -> AllP s -> AllP (job_step idue s n k).
   Proof.
@@ -232,13 +232,13 @@ End Closure.
 
 (** ---- re-deciding every certificate of a state ---- *)
 Definition map_job (f : cert -> cert) (j : job) : job :=
-  Job (jname j) (jkd j) (option_map f (jold j)) (jpc_ j).
+  {| jname := jname j; jkd := jkd j; jold := option_map f (jold j); jpc_ := jpc_ j |}.
 Definition map_pass (f : cert -> cert) (q : pass) : pass :=
-  Pass (pid q) (map f (preload q)) (map f (prenew q)).
+  {| pid := pid q; preload := map f (preload q); prenew := map f (prenew q) |}.
 Definition map_state (f : cert -> cert) (s : state) : state :=
-  State (map (fun p => (fst p, f (snd p))) (store s)) (map f (cache s))
-        (map (map_job f) (jobs s)) (map (map_pass f) (passes s))
-        (failing s) (issued s) (failed s) (next s) (lasterr s).
+  {| store := map (fun p => (fst p, f (snd p))) (store s); cache := map f (cache s);
+     jobs := map (map_job f) (jobs s); passes := map (map_pass f) (passes s);
+     failing := failing s; issued := issued s; failed := failed s; next := next s; lasterr := lasterr s |}.
 
 Lemma pass_certs_map f ps : pass_certs (map (map_pass f) ps) = map f (pass_certs ps).
 Proof.
@@ -278,7 +278,7 @@ Section Timed.
   (** C04's verdict on the certificate with identity [k] at the instant [now] *)
   Definition verdict_at (now : Z) (k : nat) : bool := due_b scale (env k) (draw k) now.
   Definition retime_cert (now : Z) (c : cert) : cert :=
-    at_time scale now (draw (cid c)) (TCert c (env (cid c))).
+    at_time scale now (draw (cid c)) {| tc_cert := c; tc_in := env (cid c) |}.
   Definition retime (now : Z) (s : state) : state := map_state (retime_cert now) s.
   (** every certificate of the state carries C04's verdict at [now] *)
   Definition Timed (now : Z) (s : state) : Prop := forall c, InSt s c -> cdue c = verdict_at now (cid c).
@@ -289,7 +289,7 @@ Section Timed.
     cdue (retime_cert now c) = verdict_at now (cid c).
   Proof. repeat split. Qed.
   Lemma retime_cert_id now c : cdue c = verdict_at now (cid c) -> retime_cert now c = c.
-  Proof. intros H. destruct c as [i h r d m]. unfold retime_cert, at_time. cbn in *. rewrite H. reflexivity. Qed.
+  Proof. intros H. destruct c. unfold retime_cert, at_time. cbn in *. rewrite H. reflexivity. Qed.
 
   Theorem Timed_retime now s : Timed now (retime now s).
   Proof. intros c' Hc. apply InSt_map in Hc. destruct Hc as (c & _ & ->). reflexivity. Qed.
@@ -663,9 +663,12 @@ Definition split_history_f64 := split_history scale_f64.
 Definition day : Z := (86400 * second)%Z.
 (** a 90-day certificate issued at [nb]; interval 10 min; default ratio (1/3); no ARI *)
 Definition i90 (nb : Z) : inputs :=
-  Inputs nb (nb + 90 * day - second)%Z (600 * second)%Z (0, 1)%Z false no_ari.
+  {| not_before := nb; not_after := (nb + 90 * day - second)%Z; interval := (600 * second)%Z;
+     cfg_ratio := (0, 1)%Z; disable_ari := false; ari := no_ari |}.
 (** a 6-day certificate issued on day 60 *)
-Definition i6 : inputs := Inputs (60 * day)%Z (66 * day - second)%Z (600 * second)%Z (0, 1)%Z false no_ari.
+Definition i6 : inputs :=
+  {| not_before := (60 * day)%Z; not_after := (66 * day - second)%Z; interval := (600 * second)%Z;
+     cfg_ratio := (0, 1)%Z; disable_ari := false; ari := no_ari |}.
 (** identity 0: issued on day 0; identity 1: on day 50; identity 9: the 6-day one; all others: on day 61 *)
 Definition x_env (k : nat) : inputs :=
   if k =? 0 then i90 0 else if k =? 1 then i90 (50 * day) else if k =? 9 then i6 else i90 (61 * day).
@@ -674,13 +677,18 @@ Definition x_od (n : name) : bool := false.
 Definition t61 : Z := (61 * day)%Z.
 Definition t65 : Z := (65 * day)%Z.
 Definition t115 : Z := (115 * day)%Z.
-Definition xc0 := Cert 0 0 [3] true true.       (* names 0 and 3; day 61 of 90: due *)
-Definition xc1 := Cert 1 1 [] false true.       (* day 11 of 90 *)
-Definition xc3 := Cert 3 5 [] false false.      (* unmanaged *)
-Definition xc9 := Cert 9 0 [] false true.       (* day 1 of 6 *)
-Definition x_s (fl : list name) : state := State [(0, xc0); (1, xc1)] [xc0; xc1; xc3] [] [] fl [] [] 4 false.
+Definition xc0 : cert := {| cid := 0; chead := 0; crest := [3]; cdue := true; cman := true |}.      (* names 0 and 3; day 61 of 90: due *)
+Definition xc1 : cert := {| cid := 1; chead := 1; crest := []; cdue := false; cman := true |}.      (* day 11 of 90 *)
+Definition xc3 : cert := {| cid := 3; chead := 5; crest := []; cdue := false; cman := false |}.     (* unmanaged *)
+Definition xc9 : cert := {| cid := 9; chead := 0; crest := []; cdue := false; cman := true |}.      (* day 1 of 6 *)
+Definition x_s (fl : list name) : state :=
+  {| store := [(0, xc0); (1, xc1)]; cache := [xc0; xc1; xc3]; jobs := []; passes := []; failing := fl;
+     issued := []; failed := []; next := 4; lasterr := false |}.
 (** a pass has scanned and queued [xc0] for a reload of the externally renewed [xc9] *)
-Definition x_r : state := State [(0, xc9)] [xc0] [] [Pass 7 [xc0] []] [] [] [] 10 false.
+Definition x_q : pass := {| pid := 7; preload := [xc0]; prenew := [] |}.
+Definition x_r : state :=
+  {| store := [(0, xc9)]; cache := [xc0]; jobs := []; passes := [x_q]; failing := [];
+     issued := []; failed := []; next := 10; lasterr := false |}.
 
 Ltac x_solve := vm_compute; repeat split; try congruence; try reflexivity.
 
@@ -723,7 +731,7 @@ Example x_renewed :
      nothing_due (x_env (cid x)) (x_draw (cid x)) t61 \/ cman x = false \/ x_od (chead x) = true) /\
   no_job_for (chead xc0) (jobs (x_s [])) = true /\ is_failing (x_s []) 0 = false /\ is_failing (x_s [0]) 0 = true /\
   (let s' := run x_od false (x_s []) [PassScan 1; PassAct 1; JobStep 0 0; JobStep 0 0; JobStep 0 0] in
-   cache s' = [xc1; xc3; Cert 4 0 [] false true] /\ issued s' = [0] /\ jobs s' = []) /\
+   cache s' = [xc1; xc3; new_cert false (x_s []) 0] /\ issued s' = [0] /\ jobs s' = []) /\
   (let s' := run x_od false (x_s [0]) [PassScan 1; PassAct 1; JobStep 0 0; JobStep 0 0; JobStep 0 0; PassScan 2; PassAct 2] in
    cache s' = [xc0; xc1; xc3] /\ issued s' = [] /\ failed s' = [0; 0]).
 Proof.
@@ -771,7 +779,7 @@ Proof.
   - intros c Hc. unfold InSt, all_certs in Hc. cbn in Hc.
     repeat (destruct Hc as [<-|Hc]; [vm_compute; reflexivity|]). destruct Hc.
   - split; [vm_compute; congruence|]. intros W.
-    pose proof (wf_pass_fresh x_od _ W (Pass 7 [retime_cert scale_f64 x_env x_draw t65 xc0] [])
+    pose proof (wf_pass_fresh x_od _ W (map_pass (retime_cert scale_f64 x_env x_draw t65) x_q)
                   (retime_cert scale_f64 x_env x_draw t65 xc0) (or_introl eq_refl) (or_introl eq_refl)) as H.
     vm_compute in H. discriminate.
 Qed.
